@@ -241,13 +241,16 @@ end
 
 /-- `expr::parse` + the "nothing may remain" test of `query`; an expression nested deeper than the
     limit read from the source (`MAX_EXPR_DEPTH`, 0 = no limit) is a syntax error -/
-def parseExpr (s : Str) : Except ParseErr Expr :=
-  match run Gen.XPath.env (xpathFuel s) (.nt N.parse) s with
+def parseExprFuel (f : Nat) (s : Str) : Except ParseErr Expr :=
+  match run Gen.XPath.env f (.nt N.parse) s with
   | .fuel => .error .fuel
   | .fail => .error .syntax
   | .ok c rest =>
     if maxDepth_expr != 0 && exprDepth c > maxDepth_expr then .error .syntax
     else if rest.isEmpty then .ok (absNode (c.size + 2) N.parse (match c with | .node _ b => b | x => x)) else .error .remain
+
+/-- `parseExprFuel` at the fuel the model runs with -/
+def parseExpr (s : Str) : Except ParseErr Expr := parseExprFuel (xpathFuel s) s
 
 /-- the same over the REVIEWED expression grammar (`Gen/XPathGrammarRef.lean`, from tools/ref/xpath.json)
     and its nesting limit: the reference that does not move when the source moves -/
